@@ -48,7 +48,7 @@ def run_cases(tree, builddir, mod, cases, ref=None, ref_mod=None, nproc=None, co
     d = tree.subdir(tagdir or ('run_' + mod))
     chunks = [cases[i::nproc] for i in range(nproc)]
 
-    def one(ci):
+    def one(ci, timeout=timeout):
         chunk = chunks[ci]
         cf = os.path.join(d, 'cases_%d.json' % ci)
         with open(cf, 'w') as f:
@@ -107,6 +107,33 @@ def run_cases(tree, builddir, mod, cases, ref=None, ref_mod=None, nproc=None, co
                 local['fatal'].append({'rc': r.rc, 'timed_out': r.timed_out, 'stderr': (r.err or '')[-3000:],
                                        'stdout': (r.out or '')[-1000:]})
                 break
+            if r.timed_out:
+                # a watchdog firing on a loaded machine is not a verdict: confirm by running the in-flight case alone
+                sf1 = os.path.join(d, 'spec_%d_confirm.json' % ci)
+                cf1 = os.path.join(d, 'cases_%d_confirm.json' % ci)
+                with open(cf1, 'w') as f:
+                    json.dump([chunk[at]], f)
+                spec1 = dict(spec, cases=cf1, start=0, out=out + '.confirm', progress=prog + '.confirm')
+                spec1.pop('dump_outcomes', None)
+                with open(sf1, 'w') as f:
+                    json.dump(spec1, f)
+                r1 = core.run([core.PY, '-m', 'vlib.diffdriver', sf1],
+                              env=tree.env(builddir, *extra_path, extra=extra_env), timeout=max(120, timeout // 4), as_gb=as_gb)
+                for p in (out + '.confirm', prog + '.confirm'):
+                    if os.path.exists(p):
+                        os.unlink(p)
+                if not r1.timed_out and r1.rc == 0:
+                    # the case terminates on its own: the chunk was merely slow; resume from it with more time
+                    local['done'].append({'n': at - start, 'nmismatch': 0, 'hist': {}, 'distinct': 0, 'samples': []})
+                    start = at
+                    timeout = timeout * 2
+                    restarts += 1
+                    local.setdefault('slow', 0)
+                    local['slow'] += 1
+                    if restarts > max_restarts:
+                        local['fatal'].append({'rc': r.rc, 'stderr': 'too many restarts (slow machine)', 'timed_out': True})
+                        break
+                    continue
             local['crashes'].append({'case': chunk[at], 'kind': 'HANG' if r.timed_out else 'CRASH rc=%s' % r.rc,
                                      'stderr': (r.err or '')[-3000:]})
             # cases before `at` in this segment were observed but their summary was lost; count them
